@@ -10,6 +10,7 @@ from .common import (EXIT_DEADLOCK, EXIT_INVARIANT, EXIT_STEP_BUDGET, Plan, STRA
                      check_sim_health, rm_rf, rng_for, scratch_dir, sim_link)
 from .elf import Elf
 from .family_fs import SIMSYS, read_syslog
+from .family_graph import ALLOC_ERR
 
 PRIOR_STATES = ["absent", "absent", "shorter", "longer", "random", "previous", "busy"]
 
@@ -81,9 +82,11 @@ def prepare_prior(state, out, rng, previous):
 CLASS_CYCLE = ["dyn", "graph", "str", "tls", "dyn", "script", "graph", "big"]
 
 
-def make_class(rng, workdir, tier, index=0):
+def make_class(rng, workdir, tier, index=0, force_ctype=None):
     """Returns (class_type, base_argv (without output/knobs), description, notes)."""
     ctype = CLASS_CYCLE[index % len(CLASS_CYCLE)]
+    if force_ctype:
+        ctype = force_ctype
     if ctype in ("graph", "tls"):
         # "tls": every TLS access model (GD, IE, TLSDESC) x visibility, mostly in shared objects,
         # where the GOT slots get dynamic relocations instead of values.
@@ -161,7 +164,7 @@ def run_job(job):
            "steps": 0, "switches": 0}
     c = res["counters"]
     try:
-        ctype, base, info = make_class(rng, workdir, job["tier"], index)
+        ctype, base, info = make_class(rng, workdir, job["tier"], index, job.get("ctype"))
         build_id = rng.choice(["none", "none", "fast", "sha1"])
         class_args = list(base) + [f"--build-id={build_id}"]
         c[f"class_{ctype}"] = 1
@@ -252,6 +255,10 @@ def run_job(job):
                 # being executed: a legitimate, history-caused failure, not an outcome difference.
                 c["busy_update_in_place_refused"] = c.get("busy_update_in_place_refused", 0) + 1
                 continue
+            if r.status != 0 and any(m in r.err_text() for m in ALLOC_ERR):
+                res["violations"].append({
+                    "prop": "C23", "clause": "size-accounting", "signature": f"det/alloc-error/{ctype}",
+                    "detail": r.err_text()[-400:], "replay": desc})
             if r.status != 0:
                 # Not a determinism question by itself; but a class whose link fails only sometimes
                 # is a violation of "the result doesn't depend on the schedule".
